@@ -177,6 +177,7 @@ type vC12Mon struct {
 	cbDone int
 
 	issuedBefore, issuedAfter int // C12/closerace
+	demandDone                int64
 	members                   map[peer.ID]bool
 	hist                      []string
 	keyCnt                    int
@@ -869,6 +870,57 @@ func (m *vC12Mon) rest(tag string) {
 	if m.conc {
 		return
 	}
+	// a member that fails (demanding class) is removed: a PeerRemoved callback follows the failure
+	memberAt := func(p peer.ID, seq int64) bool {
+		in := false
+		for _, cb := range cbs {
+			if cb.Seq > seq {
+				break
+			}
+			if cb.Peer == p {
+				in = cb.Add
+			}
+		}
+		return in
+	}
+	removedAfter := func(p peer.ID, seq int64) bool {
+		for _, cb := range cbs {
+			if cb.Peer == p && !cb.Add && cb.Seq > seq {
+				return true
+			}
+		}
+		return false
+	}
+	water := m.demandDone
+	for p, fs := range facts {
+		for _, f := range fs {
+			if !f.Demand || f.Seq <= m.demandDone {
+				continue
+			}
+			if f.Seq > water {
+				water = f.Seq
+			}
+			if !memberAt(p, f.Seq) {
+				continue
+			}
+			c.Obs("member_failures_judged_"+f.Src, 1)
+			c.Check(removedAfter(p, f.Seq), "failed-member-removed", "%s was a member when it failed (%s, #%d) and no PeerRemoved followed; %s", n.Name(p), f.Src, f.Seq, ctx(p))
+		}
+	}
+	for _, e := range m.protoEvs {
+		if e.Seq <= m.demandDone || e.HasProto || !m.beforeClose(e.VT) {
+			continue
+		}
+		if e.Seq > water {
+			water = e.Seq
+		}
+		if !memberAt(e.Peer, e.Seq) {
+			continue
+		}
+		c.Obs("member_failures_judged_bus", 1)
+		c.Check(removedAfter(e.Peer, e.Seq), "failed-member-removed", "%s was a member when it was reported (%s, #%d) without the protocol and no PeerRemoved followed; %s", n.Name(e.Peer), e.Kind, e.Seq, ctx(e.Peer))
+	}
+	m.demandDone = water
 	// members that failed after their last success are absent
 	for p, fs := range facts {
 		var last *vC12Fact
@@ -1276,7 +1328,7 @@ func (m *vC12Mon) runHistory(t *testing.T) {
 func TestVerif_C12_histories(t *testing.T) {
 	vh.Run(t, vh.Spec{Prop: "C12", Unit: "histories", Quick: 400, Thorough: 16000, CostMs: 60,
 		Rule:    "PRNG histories of 8-16 steps over 3-15 simulated peers (K in {24,40} so that no bucket fills; alpha in {1,3,10,K}; beta = K or, in a third of the cases, 1/3 with follow-up phase; optional generated routing-table filter; refresh period 20 s-5 min, query timeout 4/10 s, sender read timeout 3/10 s, lookup-check concurrency 256/1/2; fix-low-peers loop running): burst connect+identify, identify with/without the DHT protocol, protocol removed/added, health flips (ok, slow, empty answer, liar naming self/strangers, request error, dead, slow dial failure, silent, flaky), disconnect, GetClosestPeers (plain / cancelled at a PRNG instant or exactly at a reply instant / pre-cancelled), RefreshRoutingTable/ForceRefresh (1-3 at once), idle beyond the ping grace period, identify event for the local node, Close in four variants with refresh requests before/during/after; every step ends at a rest point in virtual time where PeerAdded/PeerRemoved callbacks, ListPeers and the refresh channels are judged against the simulated wire log; non-trivial = at least one admission and one eviction; distinct by (shape, step kinds, #adds, #removals)",
-		Clauses: []string{"never-self", "admit-after-reply", "admit-fresh-reply", "probe-admission-valid", "removal-justified", "failed-member-absent", "cancel-only-retained", "callbacks-match-table", "refresh-answered", "refresh-one-value", "refresh-answered-shutdown"}},
+		Clauses: []string{"never-self", "admit-after-reply", "admit-fresh-reply", "probe-admission-valid", "removal-justified", "failed-member-removed", "failed-member-absent", "cancel-only-retained", "callbacks-match-table", "refresh-answered", "refresh-one-value", "refresh-answered-shutdown"}},
 		func(c *vh.Case) {
 			cfg := vC12Gen(c)
 			c.Bubble(t, 200*time.Hour, "c12-hang", func(t *testing.T) {
